@@ -15,7 +15,8 @@ type test reads `field.repeated or field.type != str`, so a `repeated string` is
 
 Represented: the whole of `enforce_valid_method_settings` (every branch, in the code's order, with the
 dict-overwrite semantics of `all_errors`); `all_method_settings` as far as the templates read it
-(`settingsFor`: the dict comprehension keyed by selector; `importsUuid`: the `{% if … |list %}` gate of
+(`generate`: one validation per sub-package view that renders a service, each against the view's own methods;
+`settingsFor`: the dict comprehension keyed by selector; `importsUuid`: the `{% if … |list %}` gate of
 `import uuid` in client.py.j2 / async_client.py.j2); the macro (both branches, the loop, the lookup by
 `method.meta.address.proto`); the statement order of the sync and asyncio method bodies; the four call
 paths (sync gRPC, asyncio gRPC, REST = sync client, rest_asyncio = asyncio client); the request coercion
@@ -120,6 +121,23 @@ iff it is not empty -/
 def validate (api : List Method) (ss : List Settings) : Errors := (ss.foldl (step api) ([], [])).2
 
 def accepted (api : List Method) (ss : List Settings) : Bool := (validate api ss).isEmpty
+
+/-! ### Generation: the views of the API that validate -/
+
+/-- a view of the API (`API.subpackages[…]`: a `dataclasses.replace` copy with `subpackage_view` set, whose `protos`,
+`services` and hence `all_methods` are restricted to the protos of that sub-package): the methods whose selector
+is among `sels` -/
+def viewOf (api : List Method) (sels : List String) : List Method := api.filter (fun m => sels.contains m.selector)
+
+/-- `Generator._render_template` renders the per-service templates of a service with `api :=` the view of the
+sub-package the service lives in (the sub-packages first, then the services of the view's own level); each of
+these views evaluates its OWN cached property `all_method_settings`, i.e. `enforce_valid_method_settings`
+against its own `all_methods`; the first `MethodSettingsError` aborts the generation.  `views`: the views
+that own at least one service, in rendering order.  (An API without sub-packages has the single view `api`.) -/
+def generate (views : List (List Method)) (ss : List Settings) : Errors :=
+  match views with
+  | [] => []
+  | v :: vs => let e := validate v ss; if e.isEmpty then generate vs ss else e
 
 /-! ### Population at call time -/
 
